@@ -10,12 +10,21 @@ Inductive after_obs :=
 Inductive c39_case :=
 | KF (st : fstate) (pem : option (bytes * bytes))   (* initial state; pem.Decode of the content if FFile *)
      (gen : option bytes) (write_ok : bool)          (* generated key (as returned), whether the write can succeed *)
-     (o_panic : bool) (o_key : option bytes) (o_err : bool) (after : after_obs).
+     (o_panic : bool) (o_key : option bytes) (o_err : bool) (after : after_obs)
+(* cli loadPrivKeys / loadPubKeys on a list of paths, each with the recorded pem.Decode result *)
+| LoadPriv (ps : list (option (bytes * bytes) * path_in)) (o : obs (list (option bytes)))
+| LoadPub (ps : list (option (bytes * bytes) * path_in)) (o : obs (list bytes)).
 
 Definition blk_eqb (a b : bytes * bytes) : bool := bytes_eqb (fst a) (fst b) && bytes_eqb (snd a) (snd b).
 
 Definition c39_agree (c : c39_case) : bool :=
   match c with
+  | LoadPriv ps o =>
+      obs_agree (list_eqb (option_eqb bytes_eqb))
+        (seq_all (map (fun q => load_priv_one (const_pem (fst q)) (snd q)) ps)) o
+  | LoadPub ps o =>
+      obs_agree (list_eqb bytes_eqb)
+        (seq_all (map (fun q => load_pub_one (const_pem (fst q)) (snd q)) ps)) o
   | KF st pem gen wok o_panic o_key o_err after =>
       let '(r, w) := open_or_write (const_pem pem) st gen wok in
       match r with
